@@ -346,6 +346,9 @@ class LoopMixin:
             names |= assigned_names([ast.Expr(stmt.target)]) | {n.id for n in ast.walk(stmt.target) if isinstance(n, ast.Name)}
         writes = {("var", n) for n in names}
         stable = [v.e for n, v in self.entry_locals.items() if isinstance(v, SV) and isinstance(v.t, ty.RefT) and n not in names]
+        # a local that holds an object reference and is not assigned in the loop names the same object in every iteration
+        stable += [v.e for n, v in st.vars.items() if isinstance(v, SV) and isinstance(v.t, ty.RefT) and n not in names and v.e is not None
+                   and not any(v.e.eq(x) for x in stable)]
         for _ in range(5):
             probe = st.copy()
             self.havoc_writes(probe, writes, stable)
